@@ -277,6 +277,9 @@ def run_streams(ctx, drv, treq, rng, nstreams):
             for k in counters:
                 ctx.count(k)
             if why:
+                if ctx.violations + len(ctx.known_hits) > 60:
+                    ctx.count('further-failing-streams')
+                    continue
                 c2, w2, sig = shrink_and_sign(c, why)
                 ctx.violation('oracle: ' + w2 + (' [%s in %s]' % (sig['exc'], sig['where']) if 'exc' in sig else ''),
                               replay_obj(c2, w2), signature=sig)
